@@ -25,11 +25,28 @@ type Net struct {
 	OpenFail map[[2]peer.ID]int
 	// WriteFail: the next stream writes fail
 	WriteFail int
-	streams   int
+	// WriteFailAfter (>0): the n-th Write from now on fails (then resets to 0)
+	WriteFailAfter int
+	// OpenScript: per (from,to) scripted outcomes of the next NewStream calls: 'o' ok, 'f' fail, 'b' block until the context ends
+	OpenScript map[[2]peer.ID][]byte
+	// Opens logs every NewStream call
+	Opens   []OpenRec
+	Resets  []ResetRec
+	streams int
+}
+
+type OpenRec struct {
+	From, To peer.ID
+	T0, T1   time.Time
+	Outcome  byte
+}
+type ResetRec struct {
+	Stream int
+	By     peer.ID
 }
 
 func NewNet(w *World) *Net {
-	return &Net{W: w, hosts: map[peer.ID]*Host{}, cut: map[[2]peer.ID]bool{}, OpenFail: map[[2]peer.ID]int{}}
+	return &Net{W: w, hosts: map[peer.ID]*Host{}, cut: map[[2]peer.ID]bool{}, OpenFail: map[[2]peer.ID]int{}, OpenScript: map[[2]peer.ID][]byte{}}
 }
 
 func (n *Net) Cut(a, b peer.ID, cut bool) {
@@ -78,6 +95,27 @@ func (h *Host) NewStream(ctx context.Context, p peer.ID, pids ...protocol.ID) (n
 		return nil, err
 	}
 	key := [2]peer.ID{h.id, p}
+	if sc := h.net.OpenScript[key]; len(sc) > 0 {
+		act := sc[0]
+		h.net.OpenScript[key] = sc[1:]
+		rec := OpenRec{From: h.id, To: p, T0: time.Now(), Outcome: act}
+		switch act {
+		case 'f':
+			rec.T1 = time.Now()
+			h.net.Opens = append(h.net.Opens, rec)
+			return nil, errors.New("simnet: scripted stream open failure")
+		case 'b':
+			cs := []simrt.Case{simrt.R(ctx.Done())}
+			simrt.Select(cs, false)
+			rec.T1 = time.Now()
+			h.net.Opens = append(h.net.Opens, rec)
+			return nil, ctx.Err()
+		}
+		rec.T1 = time.Now()
+		h.net.Opens = append(h.net.Opens, rec)
+	} else {
+		h.net.Opens = append(h.net.Opens, OpenRec{From: h.id, To: p, T0: time.Now(), T1: time.Now(), Outcome: 'o'})
+	}
 	if h.net.OpenFail[key] > 0 {
 		h.net.OpenFail[key]--
 		h.net.W.Logf("net %s->%s newstream: injected failure", short(h.id), short(p))
@@ -162,6 +200,12 @@ func (s *Stream) Write(b []byte) (int, error) {
 		s.w.Net.WriteFail--
 		return 0, errors.New("simnet: injected write failure")
 	}
+	if s.w.Net.WriteFailAfter > 0 {
+		s.w.Net.WriteFailAfter--
+		if s.w.Net.WriteFailAfter == 0 {
+			return 0, errors.New("simnet: injected write failure")
+		}
+	}
 	if s.w.Net.IsCut(s.self, s.remote) {
 		s.p.reset = true
 		s.p.signal()
@@ -220,6 +264,7 @@ func (s *Stream) Close() error {
 func (s *Stream) CloseWrite() error { return s.Close() }
 func (s *Stream) CloseRead() error  { return nil }
 func (s *Stream) Reset() error {
+	s.w.Net.Resets = append(s.w.Net.Resets, ResetRec{Stream: s.p.id, By: s.self})
 	s.p.reset = true
 	s.p.signal()
 	return nil
